@@ -217,4 +217,64 @@ theorem pyShape_two (n m : Nat) (h : n ≠ 0) : pyShape [n, m] = [n, m] := by
   | zero => exact absurd rfl h
   | succ k => simp [pyShape, pyShape_one]
 
+/-! ### membership of an unordered pair in a list of pairs (`Frame.add_beam`) -/
+
+def matchPair (p : Int × Int) (x y : Int) : Bool := (p.1 == x && p.2 == y) || (p.1 == y && p.2 == x)
+
+def pairHas (pairs : List (Int × Int)) (x y : Int) : Bool := pairs.any (fun p => matchPair p x y)
+
+def samePair (p q : Int × Int) : Bool := matchPair p q.1 q.2
+
+/-- the pairs of the model's reading of `Frame.valid_pairs` -/
+def framePairs : List (Int × Int) :=
+  [(0, 1), (2, 3), (6, 7), (4, 5), (0, 3), (1, 2), (5, 6), (4, 7), (0, 4), (1, 5), (2, 6), (3, 7)]
+
+def edgePairsInt : List (Int × Int) := CBV.Gen.edgePairs.map (fun q => (((q.1 : Nat) : Int), ((q.2 : Nat) : Int)))
+
+theorem matchPair_of_samePair (p q : Int × Int) (x y : Int) (h : samePair p q = true) (hm : matchPair p x y = true) :
+    matchPair q x y = true := by
+  simp only [samePair, matchPair, Bool.or_eq_true, Bool.and_eq_true, beq_iff_eq] at *
+  rcases h with ⟨h1, h2⟩ | ⟨h1, h2⟩ <;> rcases hm with ⟨m1, m2⟩ | ⟨m1, m2⟩ <;> omega
+
+theorem pairHas_mono (P Q : List (Int × Int)) (hP : ∀ p ∈ P, ∃ q ∈ Q, samePair p q = true) (x y : Int)
+    (h : pairHas P x y = true) : pairHas Q x y = true := by
+  simp only [pairHas, List.any_eq_true] at *
+  obtain ⟨p, hp, hm⟩ := h
+  obtain ⟨q, hq, hs⟩ := hP p hp
+  exact ⟨q, hq, matchPair_of_samePair p q x y hs hm⟩
+
+/-- two lists that hold the same unordered pairs answer every look-up alike -/
+theorem pairHas_congr (P Q : List (Int × Int)) (hP : ∀ p ∈ P, ∃ q ∈ Q, samePair p q = true)
+    (hQ : ∀ q ∈ Q, ∃ p ∈ P, samePair q p = true) (x y : Int) : pairHas P x y = pairHas Q x y := by
+  rw [Bool.eq_iff_iff]
+  exact ⟨pairHas_mono P Q hP x y, pairHas_mono Q P hQ x y⟩
+
+theorem validPair_eq_pairHas (c1 c2 : Int) : validPair c1 c2 = pairHas edgePairsInt c1 c2 := by
+  simp only [validPair, pairHas, edgePairsInt, List.any_map, matchPair]
+  rfl
+
+/-- the semantics of `{a, b} in pairs` on two integer arguments is the look-up of the unordered pair -/
+theorem evalC_pairin (env : Env) (a b : String) (x y : Int) (pairs : List (Int × Int))
+    (ha : env.rat a = (x : Rat)) (hb : env.rat b = (y : Rat)) :
+    evalC env (.pairin (.var a) (.var b) pairs) = pairHas pairs x y := by
+  simp only [evalC, evalE, ha, hb, pairHas, matchPair]
+  congr 1
+  funext p
+  simp only [Int.cast_inj]
+  rfl
+
+theorem arcTheta_cond (a twoPi : Rat) :
+    (decide (0 < absR a) && decide (absR a < twoPi)) = true ↔ (a ≠ 0 ∧ -twoPi < a ∧ a < twoPi) := by
+  simp only [Bool.and_eq_true, decide_eq_true_eq, absR]
+  by_cases h0 : a < 0
+  · simp only [h0, if_true, decide_eq_true_eq]
+    constructor
+    · rintro ⟨_, h2⟩; exact ⟨ne_of_lt h0, by linarith, by linarith⟩
+    · rintro ⟨_, h2, _⟩; exact ⟨by linarith, by linarith⟩
+  · simp only [h0, if_false, decide_eq_true_eq]
+    have h0' : 0 ≤ a := not_lt.mp h0
+    constructor
+    · rintro ⟨h1, h2⟩; exact ⟨ne_of_gt h1, by linarith, h2⟩
+    · rintro ⟨hne, _, h3⟩; exact ⟨lt_of_le_of_ne h0' (Ne.symm hne), h3⟩
+
 end CBV.C20
